@@ -46,6 +46,12 @@ def pureOpcode : Op → Option Nat
   | .and => some 12 | .or => some 0
   | _ => none
 
+/-- machine opcode of the in-place instruction of a guarded bind `(:= x (if c v))`, `(:= x (!if c v))`,
+`(:= x (ewma a v))` -/
+def condCode : Op → Option Nat
+  | .if => some 7 | .notIf => some 13 | .ewma => some 5
+  | _ => none
+
 structure LE where
   instrs : List VInstr
   reg : VReg
@@ -55,11 +61,35 @@ deriving Repr, DecidableEq, Inhabited
 /-- value expressions: operands left to right, a fresh temporary per operator node. A plain bind used
 as a value (`(:= x r)` inside an expression) runs `r`, binds its result register to the register of `x`
 and *is* that register; it allocates no temporary (the counter runs on across the whole statement).
-Pure expressions never reach that case. -/
+A guarded bind used as a value (`(:= x (if c v))`, `(:= x (!if c v))`, `(:= x (ewma a v))` inside an
+expression) runs its two operands left to right, then the in-place instruction on the register of `x`, and
+*is* that register; no temporary either (what `lowerCond` does at statement level, from the running counter).
+Pure expressions never reach those cases. -/
 def lowerE (ρ : Rho) : Expr → Nat → Option LE
   | .atom (.bool b), k => some ⟨[], vImmBool b, k⟩
   | .atom (.num n), k => some ⟨[], vImmNum n, k⟩
   | .atom (.name x), k => (ρ x).map fun r => ⟨[], r, k⟩
+  | .sexp .bind (.atom (.name x)) (.sexp .if a b), k =>
+    match ρ x, lowerE ρ a k with
+    | some rx, some ca =>
+      match lowerE ρ b ca.k with
+      | some cb => some ⟨ca.instrs ++ cb.instrs ++ [⟨7, rx, ca.reg, cb.reg⟩], rx, cb.k⟩
+      | none => none
+    | _, _ => none
+  | .sexp .bind (.atom (.name x)) (.sexp .notIf a b), k =>
+    match ρ x, lowerE ρ a k with
+    | some rx, some ca =>
+      match lowerE ρ b ca.k with
+      | some cb => some ⟨ca.instrs ++ cb.instrs ++ [⟨13, rx, ca.reg, cb.reg⟩], rx, cb.k⟩
+      | none => none
+    | _, _ => none
+  | .sexp .bind (.atom (.name x)) (.sexp .ewma a b), k =>
+    match ρ x, lowerE ρ a k with
+    | some rx, some ca =>
+      match lowerE ρ b ca.k with
+      | some cb => some ⟨ca.instrs ++ cb.instrs ++ [⟨5, rx, ca.reg, cb.reg⟩], rx, cb.k⟩
+      | none => none
+    | _, _ => none
   | .sexp .bind (.atom (.name x)) r, k =>
     match ρ x, lowerE ρ r k with
     | some rx, some cr => some ⟨cr.instrs ++ [⟨1, rx, rx, cr.reg⟩], rx, cr.k⟩
